@@ -22,6 +22,12 @@ Example rdlen_none_agrees :
   Gen.rdlen_none_src = map fst (filter (fun r => has_compressible (snd r)) schema_table_regular).
 Proof. reflexivity. Qed.
 
+(* the constant and the number of length terms of every rdlen() body *)
+Example rdlen_shape_agrees :
+  Gen.rdlen_shape_src = map (fun r => (fst r, rdlen_shape (snd r))) schema_table_regular /\
+  Gen.rdlen_shape_unknown_src = rdlen_shape unknown_schema.
+Proof. split; reflexivity. Qed.
+
 Definition memN (t : N) (l : list N) : bool := existsb (N.eqb t) l.
 
 (* the rows plus the irregular types are exactly the types of AllRecordData *)
@@ -113,7 +119,7 @@ Qed.
 
 Example unknown_opaque_nonvacuous :
   schema_of 65280 = Some unknown_schema /\ schema_of 99 = Some unknown_schema /\
-  schema_of 47 = None /\
+  schema_of 45 = None /\
   parse_rdata pname_dec unknown_schema [9;9;1;2;3;9] 2 5 = Ok [VBytes [1;2;3]].
 Proof. vm_compute. auto. Qed.
 
@@ -141,7 +147,7 @@ Proof.
     destruct (is_lower f) eqn:El; [reflexivity|].
     assert (existsb is_name_not_lower (s_fields s) = true).
     { apply existsb_exists. exists f. split; [exact Hf|].
-      destruct f as [| |c l| | | |]; try discriminate. destruct l; [discriminate|reflexivity]. }
+      destruct f as [| |c l| | | | |]; try discriminate. destruct l; [discriminate|reflexivity]. }
     congruence.
   - intros f Hf. apply negb_true_iff in H.
     destruct (is_lower f) eqn:El; [|reflexivity].
@@ -159,7 +165,7 @@ Proof.
   intros Hin Hm. apply canonical_is_wire_without_flags.
   apply forallb_forall. intros f Hf.
   destruct (lower_flags_spec t s Hin) as [_ H]. specialize (H Hm f Hf).
-  destruct f as [| |c l| | | |]; try reflexivity. destruct l; [discriminate|reflexivity].
+  destruct f as [| |c l| | | | |]; try reflexivity. destruct l; [discriminate|reflexivity].
 Qed.
 
 (* ---- the constructors: which accepted values are not well-formed *)
